@@ -29,6 +29,23 @@ def norm(h):
     return h
 
 
+def impl_id(header):
+    """`impl <generics> Trait<..> for Type<..>` -> `Trait<..> for Type<..>`: the identity of an impl block
+    does not depend on how its generic parameters are bounded."""
+    h = header[len("impl"):].strip() if header.startswith("impl") else header
+    if h.startswith("<"):
+        depth = 0
+        for i, ch in enumerate(h):
+            if ch == "<":
+                depth += 1
+            elif ch == ">" and (i == 0 or h[i - 1] != "-"):
+                depth -= 1
+                if depth == 0:
+                    h = h[i + 1:].strip()
+                    break
+    return h
+
+
 def scan_file(path, rel):
     src = drop_cfg_test(strip(open(path, encoding="utf-8").read()))
     out = {}
@@ -75,7 +92,7 @@ def scan_file(path, rel):
                             break
                     j += 1
                 body = src[i:j + 1]
-                key = "%s :: %s :: %s" % (rel, impl, m_fn.group(1))
+                key = "%s :: %s :: %s" % (rel, impl_id(impl), m_fn.group(1))
                 k2, c = key, 1
                 while k2 in out:
                     c += 1
